@@ -247,6 +247,7 @@ structure World where
   conns : Nat → Option Conn
   n : Nat                           -- connections created so far
   fPending : List Nat               -- `InboundConnectionFactory._pending_connections`
+  portOpen : Bool                   -- the listening port exists and `stopListening()` has not been called
   cont : List Contender             -- listener first (if any), then direct hints, then relay hints
   started : Bool                    -- `connect()` called
   t0 : Nat                          -- … at this time
@@ -278,6 +279,14 @@ def maybeDone (w : World) : World :=
       else (match w.firstFailure with | some e => .fail e | none => .fail .unmodelled)
     { w with fired := true, firedCount := w.firedCount + 1, deadline := none, result := r }
 
+/-- is contender `k` the listener's `_listener_d` ?  Its first callback (added by `_listening` in
+    `_get_direct_hints`, before `connect()` can add any other) is the one that stops the port; the
+    generated flags say whether it runs on callback and on errback (`addBoth` = both). -/
+def isListener (cont : List Contender) (k : Nat) : Bool :=
+  match cont[k]? with
+  | some c => decide (c.kind = .listener)
+  | none => false
+
 /-- the only-one callbacks of contender `k` after it failed: `_remove`, `_failed`, `_maybe_done` -/
 def failCallbacks (w : World) (k : Nat) (e : Err) : World :=
   let w1 := { w with remaining := w.remaining.erase k,
@@ -287,7 +296,8 @@ def failCallbacks (w : World) (k : Nat) (e : Err) : World :=
 /-- contender `k`'s Deferred errbacks with `e` -/
 def fireFail (w : World) (k : Nat) (e : Err) : World :=
   let att := match w.cont[k]? with | some c => c.attached | none => false
-  let w1 := { w with cont := setPhase w.cont k (.done (some e) 0) }
+  let w1 := { w with cont := setPhase w.cont k (.done (some e) 0),
+                     portOpen := w.portOpen && !(isListener w.cont k && Gen.Transit.listener_stop_on_errback) }
   if att then failCallbacks w1 k e else w1
 
 /-- cancel connection `i`'s pending `_negotiation_d` (no callbacks run here) -/
@@ -321,7 +331,8 @@ def okCallbacks (w : World) (k i : Nat) : World :=
 /-- contender `k`'s Deferred fires with connection `i` -/
 def fireOk (w : World) (k i : Nat) : World :=
   let att := match w.cont[k]? with | some c => c.attached | none => false
-  let w1 := { w with cont := setPhase w.cont k (.done none i) }
+  let w1 := { w with cont := setPhase w.cont k (.done none i),
+                     portOpen := w.portOpen && !(isListener w.cont k && Gen.Transit.listener_stop_on_callback) }
   if att then okCallbacks w1 k i else w1
 
 def listenerIdx (w : World) : Option Nat :=
@@ -391,10 +402,10 @@ def addConn (w : World) (relayHs : Option Bytes) (owner : Option Nat) : World ×
     | some k => { w1 with cont := setPhase w1.cont k (.negotiating i) }
   (applyCtx w2 i x, raised)
 
+/-- a peer (or a stranger) connects to the advertised port: possible exactly while the port is
+    listening, whatever has become of `_listener_d` -/
 def evInbound (w : World) : Option (World × Option Err) :=
-  match listenerIdx w with
-  | some k => if phaseOf w k = some .listening then some (addConn w none none) else none
-  | none => none
+  if w.portOpen then some (addConn w none none) else none
 
 def evConnected (w : World) (k : Nat) : Option (World × Option Err) :=
   match w.cont[k]? with
@@ -520,6 +531,7 @@ def evAdvance (w : World) (dt : Nat) : World :=
 
 def initWorld (cfg : Cfg) (listener : Bool) (directs : Nat) (relays : List Nat) : World :=
   { cfg := cfg, now := 0, seq := 0, winner := none, conns := fun _ => none, n := 0, fPending := [],
+    portOpen := listener,
     cont := (if listener then [{ kind := .listener, phase := .listening, attached := false }] else [])
       ++ List.replicate directs { kind := .direct, phase := .idle, attached := false }
       ++ relays.map (fun p => { kind := .relay p, phase := .idle, attached := false }),
@@ -580,7 +592,7 @@ def showListener (w : World) : String :=
 
 def showWorld (w : World) : String :=
   let cs := (List.range w.n).filterMap (fun i => (w.conns i).map (showConn w.cfg i))
-  s!"W={match w.winner with | some i => toString i | none => "-"} R={showRes w.result} L={showListener w} P={w.fPending.length} T={(activeTimers w).length} | {" ".intercalate cs}"
+  s!"W={match w.winner with | some i => toString i | none => "-"} R={showRes w.result} L={showListener w} O={if w.portOpen then "open" else "closed"} P={w.fPending.length} T={(activeTimers w).length} | {" ".intercalate cs}"
 
 def drvInit : World :=
   initWorld { isSender := true, sendThis := [], expectThis := [], relayHs := [], recLayer := fun b => some b, recRest := fun b => b }
